@@ -527,6 +527,36 @@ pub fn faults(out: &mut Out, seed: u64, thorough: bool) {
             tt[last].crc = crc;
             run_faulty(out, &mut rng, "set_crc", &prelude, &tt.iter().map(|p| p.ser()).collect::<Vec<_>>());
         }
+        // double fault "duplicate + damage": a copy of fragment i whose GSE length field was rewritten to a small
+        // value (a syntactically valid, shorter fragment of the same id), inserted right after the original
+        for i in 0..pk.len() {
+            let orig_gl = (((pk[i][0] & 0x0F) as usize) << 8) | pk[i][1] as usize;
+            for g in [1usize, 2, 3, 4, 5, 6, orig_gl.saturating_sub(1)] {
+                if g >= orig_gl || g == 0 {
+                    continue;
+                }
+                for trunc in [true, false] {
+                    let mut c = pk[i].clone();
+                    c[0] = (c[0] & 0xF0) | (g >> 8) as u8;
+                    c[1] = (g & 0xFF) as u8;
+                    if trunc {
+                        c.truncate(g + 2);
+                    }
+                    let mut v = pk.clone();
+                    v.insert(i + 1, c);
+                    run_faulty(out, &mut rng, "dup_short", &prelude, &v);
+                }
+            }
+        }
+        // a foreign, syntactically valid intermediate fragment of the same id carrying 1..4 bytes, at every position
+        for j in 1..pk.len() {
+            for n in 1..=4usize {
+                let extra = P { kind: 0, lt: 3, fragid: t[0].fragid, tl: 0, ptype: 0, label: vec![], chain: vec![], payload: rng.bytes(n), crc: 0, gse_len: None }.ser();
+                let mut v = pk.clone();
+                v.insert(j, extra);
+                run_faulty(out, &mut rng, "insert_short", &prelude, &v);
+            }
+        }
         // two faults combined
         let n2 = if thorough { 150 } else { 25 };
         for _ in 0..n2 {
@@ -1111,7 +1141,15 @@ pub fn rxscn(out: &mut Out, path: &str) {
             rx.note_id(id);
         }
         for tok in it {
-            let f: Vec<&str> = tok.split(':').collect();
+            let mut f: Vec<&str> = tok.split(':').collect();
+            // optional last field F<fault>: a memory failure injected into this call (MC_Rx with Faults)
+            let fault: Option<&str> = match f.last() {
+                Some(x) if x.starts_with('F') => Some(&x[1..]),
+                _ => None,
+            };
+            if fault.is_some() {
+                f.pop();
+            }
             let num = |i: usize| -> usize { f.get(i).and_then(|s| s.parse().ok()).unwrap_or(0) };
             let bytes: Option<Vec<u8>> = match f[0] {
                 "provision" => {
@@ -1123,6 +1161,8 @@ pub fn rxscn(out: &mut Out, path: &str) {
                     None
                 }
                 "complete" => Some(complete(&[7, 7, 7], &label, false, ptype).ser()),
+                // rejected after its buffer was taken: the PDU is larger than any provisioned buffer
+                "badcomplete" => Some(complete(&[7; 20], &label, false, ptype).ser()),
                 "garbage" => Some(vec![0, 0, 0]),
                 "first" => Some(train(&pdu_of(num(2)), &label, false, ptype, num(1) as u8, &[4, 4])[0].ser()),
                 "inter" => {
@@ -1145,12 +1185,189 @@ pub fn rxscn(out: &mut Out, path: &str) {
                 _ => None,
             };
             if let Some(b) = bytes {
-                let o = rx.ev_decap(out, &b, vec![]);
+                let arm: Option<(&'static str, u8)> = match (fault, f[0]) {
+                    (Some("new"), "first") => Some(("new_frag", 0)),
+                    (Some("new"), _) => Some(("new_pdu", 0)),
+                    (Some("take"), _) => Some(("take_frag", 0)),
+                    (Some("save"), _) => Some(("save_frag", 0)),
+                    (Some("prov"), _) => Some(("provision", 0)),
+                    (Some("provc"), _) => Some(("provision", 1)),
+                    _ => None,
+                };
+                let o = match arm {
+                    Some((op, v)) => rx.ev_decap_armed(out, &b, op, v),
+                    None => rx.ev_decap(out, &b, vec![]),
+                };
                 if let Some(buf) = o.returned {
                     held.push(buf); // stays with the caller until the model provisions it
                 }
             }
         }
         rx.ev_drain(out);
+    }
+}
+
+// ------------------------------------------------------------------ memfaults
+/// trait methods a packet of this kind can reach
+fn may_call(pkt: &[u8], op: &str) -> bool {
+    if pkt.len() < 2 {
+        return false;
+    }
+    match pkt[0] >> 6 {
+        3 => matches!(op, "new_pdu" | "provision"),
+        2 => matches!(op, "new_frag" | "save_frag" | "provision"),
+        0 => matches!(op, "take_frag" | "save_frag" | "provision"),
+        _ => matches!(op, "take_frag" | "provision"),
+    }
+}
+
+const MEM_OPS: [&str; 5] = ["new_pdu", "new_frag", "take_frag", "save_frag", "provision"];
+
+fn run_memfault(out: &mut Out, rng: &mut Rng, what: &str, nbuf: usize, seq: &[Vec<u8>], arms: &[(usize, &'static str, u8)]) {
+    set_slots(2 + out.scn % 2);
+    let mut rx = mk_rx(out, "memfaults", what, slots(), PDU_SIZE, nbuf, std_mgr(), false);
+    for (i, p) in seq.iter().enumerate() {
+        match arms.iter().find(|a| a.0 == i) {
+            Some((_, op, v)) => {
+                let mut o = rx.ev_decap_armed(out, p, op, *v);
+                if let Some(b) = o.returned.take() {
+                    rx.ev_provision_buf(out, b);
+                }
+            }
+            None => {
+                feed(out, &mut rx, p, vec![]);
+            }
+        }
+    }
+    probe(out, &mut rx, rng, PDU_SIZE, 4, PDU_SIZE + 30);
+    rx.ev_drain(out);
+}
+
+/// sequences that reach every memory call site of decap, error exits (give-back) included
+fn memfault_base(rng: &mut Rng, k: usize) -> Vec<Vec<u8>> {
+    let ser = |t: &[P]| -> Vec<Vec<u8>> { t.iter().map(|p| p.ser()).collect() };
+    let l6 = [1u8, 2, 3, 4, 5, 6];
+    let mut v: Vec<Vec<u8>> = vec![];
+    match k % 6 {
+        0 => {
+            // complete, then a valid train
+            v.push(complete(&rng.bytes(9), &l6, false, 0x0800).ser());
+            let n = rng.range(9, 40);
+            v.extend(ser(&valid_train(rng, n, 4, false).1));
+        }
+        1 => {
+            // two trains interleaved on ids that do not share a slot (4, 5) and a restart of id 4
+            let a = ser(&train(&rng.bytes(20), &l6, false, 0x0800, 4, &[5, 5, 5]));
+            let b = ser(&train(&rng.bytes(18), &[7, 7, 1], false, 0x86DD, 5, &[6, 6]));
+            v.push(a[0].clone());
+            v.push(b[0].clone());
+            v.push(a[1].clone());
+            v.push(b[1].clone());
+            v.push(a[0].clone()); // restart: new_frag on an occupied slot
+            v.push(a[1].clone());
+            v.push(b[2].clone());
+            v.push(a[2].clone());
+            v.push(a[3].clone());
+        }
+        2 => {
+            // error exits after a buffer was taken: unresolvable re-use complete, fragment that no longer fits,
+            // bad CRC, wrong total length
+            v.push(complete(&rng.bytes(5), &l6, true, 0x0800).ser());
+            let t = train(&rng.bytes(40), &l6, false, 0x0800, 4, &[30]);
+            v.push(t[0].ser());
+            v.push(P { kind: 0, lt: 3, fragid: 4, tl: 0, ptype: 0, label: vec![], chain: vec![], payload: rng.bytes(50), crc: 0, gse_len: None }.ser());
+            let mut t2 = train(&rng.bytes(24), &[], false, 0x0800, 5, &[8, 8]);
+            t2[2].crc ^= 0x0100;
+            v.extend(ser(&t2));
+            let mut t3 = train(&rng.bytes(24), &l6, false, 0x0800, 6, &[8, 8]);
+            t3[0].tl += 3;
+            v.extend(ser(&t3));
+        }
+        3 => {
+            // first fragments on aliasing ids (slot claimed), strays, a first fragment larger than the storage
+            let s = slots() as u8;
+            let a = ser(&train(&rng.bytes(20), &l6, false, 0x0800, 4, &[5, 5]));
+            let b = ser(&train(&rng.bytes(20), &l6, false, 0x0800, 4 + s, &[5, 5]));
+            v.push(a[0].clone());
+            v.push(b[0].clone());
+            v.push(a[1].clone());
+            v.push(b[1].clone());
+            v.push(b[2].clone());
+            v.push(train(&rng.bytes(90), &l6, false, 0x0800, 6, &[80])[0].ser());
+            v.push(a[2].clone());
+        }
+        4 => {
+            // zero label, unknown mandatory extension, broadcast + re-use, then a train with re-use first fragment
+            v.push(complete(&rng.bytes(5), &[0, 0, 0, 0, 0, 0], false, 0x0800).ser());
+            v.push(complete(&rng.bytes(5), &l6, false, 0x0099).ser());
+            v.push(complete(&rng.bytes(5), &l6, false, 0x0800).ser());
+            v.extend(ser(&train(&rng.bytes(21), &l6, true, 0x0800, 4, &[7, 7])));
+            v.push(complete(&rng.bytes(5), &[], false, 0x0800).ser());
+            v.push(complete(&rng.bytes(5), &l6, true, 0x0800).ser());
+        }
+        _ => {
+            // CRC-only end packet, PDU that fills the storage exactly
+            v.extend(ser(&valid_train_crc_only_end(rng, 12, 4).1));
+            v.extend(ser(&train(&rng.bytes(PDU_SIZE), &l6, false, 0x0800, 5, &[PDU_SIZE / 2, PDU_SIZE / 2])));
+        }
+    }
+    v
+}
+
+/// `memfaults` (C08): every memory call site of decap fails once, in both ways the trait allows, at every
+/// position of sequences that reach it; then random sessions with random failures.  After each history a
+/// fresh transfer must go through (probe) and every buffer is accounted for (drain).
+pub fn memfaults(out: &mut Out, seed: u64, thorough: bool) {
+    let mut rng = Rng::new(seed ^ 0x3E3F_A017);
+    let nbase = if thorough { 36 } else { 6 };
+    for bi in 0..nbase {
+        set_slots(2 + bi % 2);
+        let seq = memfault_base(&mut rng, bi);
+        let nbuf = 1 + (bi / 6) % 3;
+        run_memfault(out, &mut rng, "none", nbuf, &seq, &[]);
+        for pos in 0..seq.len() {
+            for op in MEM_OPS {
+                if !may_call(&seq[pos], op) {
+                    continue;
+                }
+                for variant in 0..2u8 {
+                    if op == "save_frag" && variant == 1 {
+                        continue; // one way only
+                    }
+                    run_memfault(out, &mut rng, "one_fault", nbuf, &seq, &[(pos, op, variant)]);
+                }
+            }
+        }
+    }
+    // random sessions
+    let nsess = if thorough { 400 } else { 60 };
+    for _ in 0..nsess {
+        let n = rng.range(15, 50);
+        let mut seq: Vec<Vec<u8>> = vec![];
+        let mut arms: Vec<(usize, &'static str, u8)> = vec![];
+        while seq.len() < n {
+            if rng.chance(1, 3) {
+                let k = rng.range(6, 40);
+                let id = *rng.pick(&[4u8, 5, 6]);
+                for p in valid_train(&mut rng, k, id, false).1 {
+                    seq.push(p.ser());
+                }
+            } else {
+                let p = random_packet(&mut rng);
+                if p.len() < 200 {
+                    seq.push(p);
+                }
+            }
+        }
+        for i in 0..seq.len() {
+            if rng.chance(1, 3) {
+                let ops: Vec<&'static str> = MEM_OPS.iter().copied().filter(|o| may_call(&seq[i], o)).collect();
+                if !ops.is_empty() {
+                    arms.push((i, *rng.pick(&ops), rng.below(2) as u8));
+                }
+            }
+        }
+        let nbuf = rng.range(1, 3);
+        run_memfault(out, &mut rng, "random", nbuf, &seq, &arms);
     }
 }
